@@ -96,10 +96,17 @@ def install(ctx):
     monitor.wrap(ctx, br, "_brier_score_ndarray", post_r, mon_name="brier_evaluations._brier_score_ndarray")
 
 
-def ex_prim(ctx, fn, lam, w, meta=True):
+def ex_prim(ctx, fn, lam, w, meta=True, layout="C"):
     be, br = _mods()
     lam = numpy.asarray(lam, dtype=float)
     w = numpy.asarray(w, dtype=float)
+    if lam.ndim == 2:
+        if layout == "F":
+            lam = numpy.asfortranarray(lam)                 # rates column-major, counts row-major (as the tests build them)
+        elif layout == "T":
+            lam = numpy.ascontiguousarray(lam.T).T          # a magnitude-major table transposed
+        elif layout == "both-F":
+            lam, w = numpy.asfortranarray(lam), numpy.asfortranarray(w)
     f = be.binary_joint_log_likelihood_ndarray if fn == "binary" else br._brier_score_ndarray
     ok, base, tb = ctx.call(f, lam, w)
     if not meta or not ok:
@@ -113,11 +120,15 @@ def ex_prim(ctx, fn, lam, w, meta=True):
                         {"exec": "prim", "args": {"fn": fn, "lam": lam, "w": w}}, observed={"base": float(base), lab: float(v)}, tags={"fn": fn, "meta": lab})
 
 
-def ex_e2e(ctx, case, test="BS", num_sim=4, seed=1):
+def ex_e2e(ctx, case, test="BS", num_sim=4, seed=1, layout="C", inject=False):
     be, br = _mods()
     fore, cat, reg, w = gridcases.build(case)
     rates = numpy.array(case["rates"], dtype=float)
-    rc = {"exec": "e2e", "args": {"case": case, "test": test, "num_sim": num_sim, "seed": seed}}
+    if layout == "F":
+        fore._data = numpy.asfortranarray(fore._data)
+    elif layout == "T":
+        fore._data = numpy.ascontiguousarray(fore._data.T).T
+    rc = {"exec": "e2e", "args": {"case": case, "test": test, "num_sim": num_sim, "seed": seed, "layout": layout, "inject": inject}}
     if test == "BS":
         fn, mod, lam, wobs = be.binary_spatial_test, be, rates.sum(axis=1), w.sum(axis=1)
     elif test == "BCL":
@@ -131,8 +142,14 @@ def ex_e2e(ctx, case, test="BS", num_sim=4, seed=1):
     if n_active > int((numpy.asarray(lam) > 0).sum()) or not _feasible_binary(numpy.asarray(lam, dtype=float).ravel(), n_active):
         ctx.add("skipped_infeasible_rejection_cases")   # rejection sampling would need ~1/p draws: not a statement about scores
         return
+    kw = {"num_simulations": num_sim, "seed": seed}
+    if inject and test == "BR" and n_active >= 2:
+        # injected uniform numbers (documented injection point): several numbers may land in one bin, i.e. simulated bins holding >= 2 events
+        u = numpy.random.default_rng([seed, 16]).uniform(0, 1, (num_sim, n_active))
+        u[:, 1] = u[:, 0]
+        kw["random_numbers"] = u
     with simlog.RngLog(budget=400000) as rl, simlog.SimLog(mod, "brier" if test == "BR" else "binary", rl) as sl:
-        ok, res, tb = ctx.call(fn, fore, cat, num_simulations=num_sim, seed=seed)
+        ok, res, tb = ctx.call(fn, fore, cat, **kw)
     ctx.count(1)
     if not ok:
         if isinstance(res, simlog.DrawBudgetExceeded):
@@ -233,7 +250,7 @@ def run(ctx):
         if not zero_active_class:
             w = numpy.where(lam == 0, 0.0, w)           # zero-rate bins stay inactive in the main class
         for fn in ("binary", "brier"):
-            ex_prim(ctx, fn, lam, w)
+            ex_prim(ctx, fn, lam, w, layout=["C", "F", "T", "both-F"][j % 4])
             ctx.count(3)
             if (w >= 2).any() or (lam == 0).any() or (len(shape) == 2 and shape[0] != shape[1]):
                 ctx.nt(digest((fn, ctx.seed, ctx.shard, j)))
@@ -245,5 +262,5 @@ def run(ctx):
         r = ctx.rng("c16e", j)
         case = gridcases.gen_case(r, max_cells=30, max_mag=5, max_events=40, rate_lo=-9, rate_hi=1, events_in_zero=(j % 6 == 0))
         for test in ("BS", "BCL", "BR"):
-            ex_e2e(ctx, case, test, num_sim=int(r.choice([1, 3, 5])), seed=int(r.integers(0, 100)))
+            ex_e2e(ctx, case, test, num_sim=int(r.choice([1, 3, 5])), seed=int(r.integers(0, 100)), layout=["C", "F", "T"][j % 3], inject=bool(j % 2))
         ex_maps(ctx, case)
